@@ -20,7 +20,7 @@ from .ctx import Ctx
 from .model import AnalysisError, FunctionInfo
 from .report import RuleResult
 from .terms import (Attr, BoundMethod, Call, ClassRef, Const, EnumMember, Evaluator, Ext, FuncRef, Ite, Loop, New, Op,
-                    Opaque, Outcome, Sub, Sym, Term, TupleT, alternatives, default_inline, guards_repr, norm_guards, walk)
+                    Opaque, Outcome, Sub, Sym, Term, TupleT, alternatives, default_inline, expand_outcomes, guards_repr, norm_guards, walk)
 from .util import call_name, call_recv, method_calls
 
 ALIAS = {'a': 'operand1', 'b': 'operand2', 'p': 'condition', 'phi': 'condition', 'd': 'domain', 'x': 'variable', 'op': 'operator', 'operand': 'operand1'}
@@ -106,8 +106,77 @@ class Shapes:
             return
         if isinstance(g, Call) and call_name(g) == 'contains_reference' and len(g.args) == 1:
             self.dep[(canon(call_recv(g)), canon(g.args[0]))] = pol
+            self._propagate()
+            return
+        if isinstance(g, Op) and g.op == 'or' and not pol:
+            for a in g.args:
+                self.read(a, False)
             return
         self.other.append((g, pol))
+        self._propagate()
+
+    def _dep_key(self, t: Term):
+        if isinstance(t, Call) and call_name(t) == 'contains_reference' and len(t.args) == 1:
+            return (canon(call_recv(t)), canon(t.args[0]))
+        return None
+
+    def _propagate(self):
+        """guards that are boolean combinations of dependence tests (x != y, (x and not y) or (y and not x), ...): an
+        atom that has one value in every truth assignment consistent with them and with the known facts is a fact"""
+        import itertools as _it
+        forms = []
+        atoms: List = []
+
+        def collect(t: Term) -> bool:
+            k = self._dep_key(t)
+            if k is not None:
+                if k not in atoms:
+                    atoms.append(k)
+                return True
+            if isinstance(t, Op) and t.op in ('and', 'or', 'not', '!=', '==', '^', 'is', 'is not'):
+                return all(collect(a) for a in t.args)
+            return isinstance(t, Const) and isinstance(t.value, bool)
+
+        def val(t: Term, m) -> bool:
+            k = self._dep_key(t)
+            if k is not None:
+                return m[k]
+            if isinstance(t, Const):
+                return bool(t.value)
+            vs = [val(a, m) for a in t.args]
+            if t.op == 'and':
+                return all(vs)
+            if t.op == 'or':
+                return any(vs)
+            if t.op == 'not':
+                return not vs[0]
+            if t.op in ('!=', '^', 'is not'):
+                return vs[0] != vs[1]
+            return vs[0] == vs[1]
+        for g, pol in self.other:
+            if isinstance(g, Op) and g.op in ('and', 'or', '!=', '==', '^', 'is', 'is not') and all(isinstance(a, Term) for a in g.args):
+                before = list(atoms)
+                if collect(g) and (g.op in ('and', 'or') or len(g.args) == 2):
+                    forms.append((g, pol))
+                else:
+                    atoms[:] = before
+        if not forms or len(atoms) > 8:
+            return
+        free = [k for k in atoms if k not in self.dep]
+        if not free:
+            return
+        models = []
+        for choice in _it.product((False, True), repeat=len(free)):
+            m = {k: self.dep[k] for k in atoms if k in self.dep}
+            m.update(dict(zip(free, choice)))
+            if all(val(g, m) == pol for g, pol in forms):
+                models.append(m)
+        if not models:
+            return
+        for k in free:
+            vs = {m[k] for m in models}
+            if len(vs) == 1:
+                self.dep[k] = vs.pop()
 
     @staticmethod
     def _kind_test(g: Op) -> Optional[Tuple[Term, str]]:
@@ -369,7 +438,7 @@ def R1(ctx: Ctx) -> RuleResult:
         fi = ctx.model.func('hpl.rewrite', name, 'R1')
         p = fi.params()[0]
         param = Sym(p, ctx.ev.ann_class(fi.node.args.args[0].annotation, fi.module).name if ctx.ev.ann_class(fi.node.args.args[0].annotation, fi.module) else None)
-        outs = ev.run(fi, {p: param})
+        outs = expand_outcomes(ev.run(fi, {p: param}))
         for o in outs:
             n += 1
             key = f'{name}[{guards_repr(norm_guards(o.guards))[-100:]}]'
@@ -436,7 +505,7 @@ def R2(ctx: Ctx) -> RuleResult:
         p = fi.params()[0]
         c = ctx.ev.ann_class(fi.node.args.args[0].annotation, fi.module)
         param = Sym(p, c.name if c else None)
-        outs = ev.run(fi, {p: param, 'alias': alias})
+        outs = expand_outcomes(ev.run(fi, {p: param, 'alias': alias}))
         for o in outs:
             if o.kind == 'raise':
                 continue
